@@ -109,6 +109,10 @@ fn child<W: Worker>(ctx: &Ctx, rep: &mut Report) {
         if family == "skipped" {
             continue;
         }
+        if family == "refused_by_constructor" {
+            rep.count("invalid_statements_refused_by_constructor", 1);
+            continue;
+        }
         let leg = if W::IS_FM { "fm" } else { "ris" };
         let replay = json!({"tier": if ctx.thorough() {"thorough"} else {"quick"}, "seed": ctx.seed, "leg": leg, "case": i, "descr": descr, "build": if plain {"plain"} else {"release"}});
         rep.eval(&(leg, i));
